@@ -416,6 +416,87 @@ def r11_9(ctx) -> None:
               "(e.g. use=sig with key_ops=[sign, encrypt] is accepted)", "for op in key_ops: raise unless op in use_key_ops_registry[use]", construct="use/key_ops subset test")
 
 
+def r11_10(ctx) -> None:
+    """dump_pem_key: encoding None / "PEM" -> Encoding.PEM, "DER" -> Encoding.DER, anything else refused (a finite dispatch)"""
+    eng = ctx.eng
+    fn = eng.prog.func("rfc7517.pem:dump_pem_key")
+    cfg = cfg_of(fn)
+    ep = "encoding"
+    if ep not in fn.params:
+        raise AnalysisError("dump_pem_key lost its encoding parameter")
+
+    def lit(t, outcome):
+        e = t.ast
+        if isinstance(e, ast.Compare) and len(e.ops) == 1 and norm(e.left) == ep:
+            op, c = e.ops[0], e.comparators[0]
+            if isinstance(op, (ast.Is, ast.IsNot)) and is_const(c, None):
+                return ("none", outcome == isinstance(op, ast.Is))
+            if isinstance(op, (ast.Eq, ast.NotEq)) and isinstance(c, ast.Constant) and c.value in ("PEM", "DER"):
+                return (c.value, outcome == isinstance(op, ast.Eq))
+            if isinstance(op, (ast.In, ast.NotIn)) and isinstance(c, (ast.Tuple, ast.List, ast.Set)):
+                vals = [const_value(x) for x in c.elts]
+                if vals == ["PEM"] or vals == ["DER"]:
+                    return (vals[0], outcome == isinstance(op, ast.In))
+        return None
+    assigns = {}
+    for n in cfg.nodes:
+        if n.kind == "stmt" and isinstance(n.ast, ast.Assign) and norm(n.ast.value) in ("Encoding.PEM", "Encoding.DER"):
+            assigns.setdefault(norm(n.ast.value), []).append(n)
+    ok = set(assigns) == {"Encoding.PEM", "Encoding.DER"}
+    why = "Encoding.PEM / Encoding.DER are not both selected"
+    if ok:
+        seen = {"Encoding.PEM": set(), "Encoding.DER": set()}
+        for val, nodes in assigns.items():
+            for n in nodes:
+                for path in cfg.guards_of(n):
+                    lits = dict(x for x in (lit(t, o) for t, o in path) if x is not None)
+                    if val == "Encoding.PEM":
+                        if lits.get("none") is True:
+                            seen[val].add("none")
+                        elif lits.get("PEM") is True:
+                            seen[val].add("PEM")
+                        else:
+                            ok = False
+                            why = f"Encoding.PEM is selected on a path that established neither `encoding is None` nor `encoding == 'PEM'` ({lits})"
+                    else:
+                        if lits.get("DER") is True and lits.get("none") is not True:
+                            seen[val].add("DER")
+                        else:
+                            ok = False
+                            why = f"Encoding.DER is selected on a path that did not establish `encoding == 'DER'` ({lits})"
+        if ok and (seen["Encoding.PEM"] != {"none", "PEM"} or seen["Encoding.DER"] != {"DER"}):
+            ok = False
+            why = f"not every documented encoding value is served: {seen}"
+        # any other value never reaches the serialisation
+        if ok:
+            allv = [n for v in assigns.values() for n in v]
+            ok = cfg.must_pass(cfg.entry, cfg.exit, allv)
+            if not ok:
+                why = "the function can complete without having selected an encoding"
+    ctx.check(ok, "R11.10", fn, fn.node, fn.short, f"PEM / DER export dispatch: {why}", "None | 'PEM' -> Encoding.PEM; 'DER' -> Encoding.DER; else ValueError", construct="dump_pem_key encoding dispatch")
+
+
+def r11_11(ctx) -> None:
+    """a key built from a JWK dict keeps exactly the given members (+ caller parameters, kty): nothing added, nothing dropped"""
+    eng = ctx.eng
+    from .common import resolve_all
+    init = eng.prog.cls("rfc7517.models:BaseKey").methods.get("__init__")
+    if init is None:
+        raise AnalysisError("BaseKey.__init__ vanished")
+    sn = init.self_name
+    ov, pm = init.pos_params[2], init.pos_params[3]
+    stores = [n for n in fn_nodes(init) if isinstance(n, (ast.Assign, ast.AnnAssign)) and any(isinstance(t, ast.Attribute) and t.attr == "_dict_value" and norm(t.value) == sn
+                                                                                               for t in (n.targets if isinstance(n, ast.Assign) else [n.target]))]
+    texts = set()
+    for st in stores:
+        if st.value is not None:
+            texts |= set(resolve_all(eng, init, st.value))
+    allowed = {"{}", f"{{**{ov}, **{pm}, 'kty': {sn}.key_type}}", f"{{**{ov}, 'kty': {sn}.key_type}}"}
+    ok = bool(stores) and texts <= allowed and len(texts) >= 2
+    ctx.check(ok, "R11.11", init, init.node, init.short, f"the JWK view kept for a key built from a dict is not exactly the given members (+ parameters, kty): {sorted(texts - allowed)}",
+              "{**original_value, **parameters, 'kty': key_type}", construct="BaseKey dict view from a JWK")
+
+
 def r11_8(ctx) -> None:
     eng = ctx.eng
     bk = eng.prog.cls("rfc7517.models:BaseKey")
@@ -448,5 +529,7 @@ def run(ctx) -> None:
     ctx.guard(r11_7)
     ctx.guard(r11_8)
     ctx.guard(r11_9)
+    ctx.guard(r11_10)
+    ctx.guard(r11_11)
     ctx.assume("pyca serialisation (PEM / DER / numbers) is faithful and validates points and RSA parameters")
     ctx.note("undecided remainder: equality of key material across PEM / DER / JWK for every key value")
